@@ -275,20 +275,29 @@ def run(chk):
         picked = two + more[chk.seed % stride::stride]
     else:
         # quick: TLC enumerated the 2-ROADM shape under the strength-3 half fraction of the settings; the life cycles
-        # run under its max_length = 150 km quarter (padding, EOL, mode still pairwise complete), plus the 80 km
-        # quarter for chains with a fibre that only splits there (95 / 151 km); Raman life cycles cost ~3 s
+        # run under its max_length = 150 km quarter (padding, EOL, mode still pairwise complete; the 80 km maximum only
+        # changes how fibres are split, which is C08's subject); Raman life cycles cost ~3 s
         # (6 Raman estimations + 4 Raman propagations): padding 10, EOL 0 only; 1200 km links (2 x 13..15 spans): padding 10
-        picked = [c for c in two if c['s']['maxLen'] > 100000 or any(e['l'] in (95000, 151000) for e in c['g'])]
+        picked = [c for c in two if c['s']['maxLen'] > 100000]
         picked = [c for c in picked if not any(e['t'] == 'RamanFiber' for e in c['g'])
-                  or (c['s']['eol'] == 0 and c['s']['powerMode'] != any(e['t'] == 'Edfa' for e in c['g']))]
+                  or (c['s']['eol'] == 0 and c['s']['powerMode'] != any(e['t'] == 'Edfa' for e in c['g'])
+                      and not chain_kind(c).startswith('RamanFiber-Fiber'))]       # RamanFiber Fiber ~ RamanFiber alone
         picked = [c for c in picked if not any(e['l'] >= 400000 for e in c['g']) or c['s']['padding'] > 0]
         # one chain per kind: chains that differ only in fibre lengths below the maximum behave alike in a life cycle
-        # ... under all four settings of the quarter when a user amplifier is involved, else under its two EOL = 0 ones
+        # ... under all four settings of the quarter when a user amplifier with a gain or VOA of its own is involved, else
+        # under its two EOL = 0 ones
         kinds = {}
         for c in picked:
-            if c['s']['eol'] == 0 or any(e['t'] == 'Edfa' for e in c['g']):
+            if c['s']['eol'] == 0 or any(e['t'] == 'Edfa' and (e['u'][0]['gain'] != NONE or e['u'][0]['voa'] != NONE)
+                                         for e in c['g']):
                 kinds.setdefault((chain_kind(c), json.dumps(c['s'], sort_keys=True)), c)
-        picked = list(kinds.values()) + more[chk.seed % stride::stride]
+        # meshed (triangle) topologies leave the route of the reference propagation to the path computation: every other
+        # one under the power-mode / padding 10 / EOL 0 setting, plus every 13th of the other 3-ROADM cases
+        mesh = [c for c in more if all(len(e['s']) == 3 for e in c['g'] if e['t'] == 'Roadm')
+                and c['s']['powerMode'] and c['s']['padding'] > 0 and c['s']['eol'] == 0]
+        picked = list(kinds.values()) + mesh[chk.seed % 2::2] + \
+            [c for c in more[chk.seed % stride::stride] if c not in mesh]
+    picked.sort(key=lambda c: not any(e['t'] == 'RamanFiber' for e in c['g']))      # the slow (Raman) life cycles first
     du.reset_sim()
     du.equipment_base('example-data'), du.equipment_base('tests-data'), du.equipment_base('variant')        # parsed once, inherited by the workers
     traces = []
@@ -333,7 +342,7 @@ def run(chk):
     # ---- B3: shipped networks
     pairs = c08.SHIPPED_THOROUGH if tier == 'thorough' else \
         [p for p in c08.SHIPPED_QUICK if p[0].name not in ('Sweden_OpenROADMv4_example_network.json',
-                                                           'twohops_roadm_power_test.json')]
+                                                           'twohops_roadm_power_test.json', 'LinkforTest.json')]
     jobs = [(a, b, ROUNDS if 'CORONET_Global' not in a.name else 2, None) for a, b in pairs]
     # "every simulation-parameter setting in force when design is invoked": with the Raman flag on the design estimates
     # the SRS tilt of every span; the multiband example (thorough: and the mesh) goes through the life cycle like that
